@@ -318,7 +318,18 @@ CHECKS["C16"] = dict(
          "nothing; a damaged newest snapshot falls back to the next intact matching one on the loadMatching model; and the torn-tail "
          "theorem (every synced record, then a whole-record prefix of the unsynced ones, ending EOF or torn at the offset Repair "
          "truncates to) for the real frame layout under the explicit hypothesis NoCollision — the unconditional multi-sector statement "
-         "C16_statement is false for a 32-bit CRC and is not claimed. NOT proved but enumerated on the real code (fault enumeration, not "
+         "C16_statement is false for a 32-bit CRC and is not claimed. At the level of entries and hard state (Props/C16ReadAll.lean, "
+         "C16Crash.lean): for wal.Create with any metadata (nil included) followed by any history of Save / SaveSnapshot / cut that honours "
+         "the decidable usage contract SaveOk, ReadAll on the files written returns the metadata, the last non-empty hard state saved, and "
+         "entries that agree with the reference log (each Save truncating at its first index and appending) on every index above the "
+         "snapshot - exactly the reference log above the snapshot under NoStale, a hypothesis that cannot be dropped "
+         "(C16.readAll_entries_stale: opened at a snapshot taken after a conflict truncation below it, ReadAll also returns the overwritten "
+         "suffix; reproduced on the real code); ErrSnapshotMismatch / ErrSnapshotNotFound arise exactly as the saved snapshots dictate, the "
+         "write-mode loss of ErrSnapshotNotFound included; Verify agrees with read-mode ReadAll; after a crash that reverts any subset of "
+         "the unsynced tail's sectors (under GNoCollision) read-mode ReadAll returns what it returns on the fully written history cut short "
+         "at a record boundary after the last synced call (crash_readAll_prefix_partial), and Repair followed by write-mode Open + ReadAll "
+         "gives the same with a clean EOF (crash_repair_readAll_prefix_partial); the file selection of Open (selectWALFiles) does not change "
+         "the result under NoStale and SnapKept (readAll_selected). NOT proved but enumerated on the real code (fault enumeration, not "
          "proof): multi-sector tears (all subsets of <= 6 unsynced tail sectors per crash point, seeded random subsets beyond) and "
          "single-byte corruption of framing bytes (frame length field, protobuf tags, type, crc field, length varints), payload, padding "
          "and the zero tail with {0x00, low bit flipped, 0xff}: wal.OpenForRead/Open+ReadAll, Verify, Repair+reopen and "
